@@ -64,6 +64,9 @@ type vfWNCase struct {
 	Name  string
 	Steps []vfWNStep
 	Death string // kill | poison | parent
+	// WatchRoot: before the steps a local and a remote actor also Watch the ROOT actor of system A (an actor like any other
+	// as far as Watch is concerned; it terminates last, when the system stops)
+	WatchRoot bool
 }
 
 func (c vfWNCase) String() string {
@@ -88,6 +91,7 @@ func vfWNCases() []vfWNCase {
 		{Name: "double watch from two systems", Steps: []vfWNStep{w("B/mon"), w("B/mon"), w("C/mon"), w("C/mon"), w("A/wa"), w("A/wa")}},
 		{Name: "watch, unwatch, watch again", Steps: []vfWNStep{w("B/mon"), u("B/mon"), w("B/mon"), w("C/wc"), u("C/wc")}},
 		{Name: "nobody watches", Steps: nil},
+		{Name: "the root actor is watched too", Steps: []vfWNStep{w("A/mon"), w("B/mon")}, WatchRoot: true},
 	}
 	var cs []vfWNCase
 	for i, b := range base {
@@ -170,6 +174,24 @@ func vfRunWatchNet(c vfWNCase) (viols []vfViol, info string, inconclusive string
 		}
 		r, _ := nodes[sysName].sys.CreateRef(addrA, localTarget.GetPath())
 		return r
+	}
+	if c.WatchRoot {
+		rootLocal := nodes["A"].sys.Ref()
+		rootRemote, _ := nodes["B"].sys.CreateRef(addrA, "/")
+		for who, tgt := range map[string]vivid.ActorRef{"A/wa": rootLocal, "B/wb": rootRemote} {
+			sysName := strings.SplitN(who, "/", 2)[0]
+			done := make(chan struct{})
+			nodes[sysName].sys.Tell(wrefs[who], &vfWNCmd{Op: "watch", Target: tgt, Done: done})
+			select {
+			case <-done:
+			case <-time.After(10 * time.Second):
+				return nil, "", "watcher did not handle its command within 10 s"
+			}
+		}
+		time.Sleep(100 * time.Millisecond)
+		if _, err := nodes["B"].sys.Ping(targetFor("B"), 10*time.Second); err != nil {
+			add("c06-watch-root-disturbs-system", "Watch(root)", "after Watch(root of A) from a local and a remote actor a Ping to an actor on A fails: %v", err)
+		}
 	}
 	inForce := map[string]bool{}
 	for _, st := range c.Steps {
